@@ -5,8 +5,12 @@
      {"ev":"reset","case":n,"hdr":{"cfg":{"allow_save":b,"auto":b,"keep_flda":b,...},
             "tr":[{"lens":[original package lengths],"size":s,"hash":h,"pre":b,...}],      one per transfer
             "wire":[{"t":t,"k":"FLST"|"FLDA"|"FLFI"|"X","pkg":p,"len":l,"orig":b}]}}     what is sent, in order
-     {"ev":"msg","i":i,"fwd":b,"kinds":[[kind,..],..]}     after process_msg of wire item i: for every transfer the state
-            kinds ("started","missing","complete","incomplete") of all entries of the plugin's public state() JSON with its key
+     {"ev":"msg","i":i,"fwd":b,"kinds":[[kind,..],..],"dir":[{"name":n,"len":l,"hash":h},..]}
+            after process_msg of wire item i (for an "ENV" item: after the environment created a file in the auto-save
+            directory instead): for every transfer the state kinds ("started","missing","complete","incomplete") of all
+            entries of the plugin's public state() JSON with its key; dir = listing of the auto-save directory (files, with
+            content hashes).  hdr.tr[t].base = the base name of the transfer's file name; hdr.env = the files the driver
+            itself put there: [{"name","len","hash","at"}] (at = wire index at which it appears, 0 = before the run)
      {"ev":"saved","t":t,"entry":e,"ok":b,"eq":b,"len":l,"hash":h}   apply_command("save") on state entry e (key of transfer t):
             ok = command succeeded and wrote a file; eq = its bytes equal the original file
      {"ev":"tree","new":[{"inside":b,"t":t,"len":l,"hash":h}],"pre_ok":b}   files that appeared in the sentinel directory
@@ -18,7 +22,10 @@
      Safety    a transfer is reported complete (at any point) only if by then all its packages arrived in order,
                unchanged (FileTransferDefs!AllArrived); a successful save / an auto-saved file has exactly the
                original bytes and belongs to such a transfer; auto-saved files lie inside the configured directory;
-               pre-existing files are never overwritten.
+               THE AUTO-SAVE DIRECTORY ONLY GROWS: a file seen there once never changes its bytes and never vanishes
+               (never overwritten - whether it existed before the run, appeared meanwhile, or was auto-saved earlier);
+               every file appearing there is the environment's or the exact bytes of a transfer with that base name
+               whose packages have all arrived in order by then.
      Liveness  at the end every transfer whose announcement and all packages arrived in order (duplicates tolerated,
                end marker optional) is reported complete and - if saving is allowed - was saved bit-exactly.
                Narrower reading: with a LOST announcement only safety is required (DESIGN.md C17, observation #16).
@@ -30,11 +37,11 @@ CONSTANT KF_C17_DuplicateIncomplete
 
 Rec == ndJsonDeserialize(IOEnv.TRACE)
 
-VARIABLES l, case, phase, hdr, i, lastK, savedOk, treeSeen, viol, kfUsed
-vars == <<l, case, phase, hdr, i, lastK, savedOk, treeSeen, viol, kfUsed>>
+VARIABLES l, case, phase, hdr, i, lastK, savedOk, treeSeen, seen, viol, kfUsed
+vars == <<l, case, phase, hdr, i, lastK, savedOk, treeSeen, seen, viol, kfUsed>>
 
-NoHdr == [cfg |-> [allow_save |-> FALSE], tr |-> <<>>, wire |-> <<>>]
-Init == /\ l = 1 /\ case = -1 /\ phase = "idle" /\ hdr = NoHdr /\ i = 0 /\ lastK = <<>> /\ savedOk = {} /\ treeSeen = FALSE
+NoHdr == [cfg |-> [allow_save |-> FALSE], tr |-> <<>>, wire |-> <<>>, env |-> <<>>, lost_name |-> ""]
+Init == /\ l = 1 /\ case = -1 /\ phase = "idle" /\ hdr = NoHdr /\ i = 0 /\ lastK = <<>> /\ savedOk = {} /\ treeSeen = FALSE /\ seen = {}
         /\ viol = {} /\ kfUsed = {}
 
 Ev(e) == l <= Len(Rec) /\ Rec[l].ev = e /\ l' = l + 1
@@ -45,15 +52,29 @@ Lens(t) == hdr.tr[t].lens
 
 Reset == /\ Ev("reset")
          /\ case' = Cur.case /\ hdr' = Cur.hdr /\ i' = 0 /\ lastK' = [t \in 1..Len(Cur.hdr.tr) |-> <<>>]
-         /\ savedOk' = {} /\ treeSeen' = FALSE /\ phase' = "running"
+         /\ savedOk' = {} /\ treeSeen' = FALSE /\ seen' = {} /\ phase' = "running"
          /\ viol' = (IF phase = "running" THEN viol \cup {case} ELSE viol)
          /\ UNCHANGED kfUsed
 
 Has(seq, x) == \E j \in 1..Len(seq) : seq[j] = x
 
+\* the auto-save directory after wire item `upto`
+Fid(f) == [name |-> f.name, len |-> f.len, hash |-> f.hash]
+Justified(f, upto) ==
+  \/ \E k \in 1..Len(hdr.env) : hdr.env[k].name = f.name /\ hdr.env[k].len = f.len /\ hdr.env[k].hash = f.hash /\ hdr.env[k].at <= upto
+  \/ \E t \in 1..NTr : /\ (hdr.tr[t].base = f.name \/ (f.name = hdr.lost_name /\ ~Announced(W, t, upto)))   \* (a lost announcement = no name)
+                         /\ f.len = hdr.tr[t].size /\ f.hash = hdr.tr[t].hash
+                         /\ AllArrived(W, t, Lens(t), upto)
+DirOk(d, upto) ==
+  /\ \A e \in seen : \E j \in 1..Len(d) : Fid(d[j]) = e                                       \* nothing changed, nothing vanished
+  /\ \A j \in 1..Len(d) : Fid(d[j]) \in seen \/ ((~\E e \in seen : e.name = d[j].name) /\ Justified(d[j], upto))
+  /\ \A j, k \in 1..Len(d) : d[j].name = d[k].name => j = k
+
 Msg == /\ Ev("msg") /\ phase = "running"
        /\ Cur.i = i + 1 /\ i + 1 <= Len(W) /\ Len(Cur.kinds) = NTr
        /\ \A t \in 1..NTr : Has(Cur.kinds[t], "complete") => AllArrived(W, t, Lens(t), i + 1)
+       /\ DirOk(Cur.dir, i + 1)
+       /\ seen' = seen \cup {Fid(Cur.dir[j]) : j \in 1..Len(Cur.dir)}
        /\ i' = i + 1 /\ lastK' = Cur.kinds
        /\ UNCHANGED <<case, phase, hdr, savedOk, treeSeen, viol, kfUsed>>
 
@@ -62,7 +83,7 @@ Saved == /\ Ev("saved") /\ phase = "running" /\ i = Len(W)
          /\ (Cur.ok => /\ Cur.eq /\ Cur.len = hdr.tr[Cur.t].size /\ Cur.hash = hdr.tr[Cur.t].hash
                        /\ AllArrived(W, Cur.t, Lens(Cur.t), Len(W)))
          /\ savedOk' = (IF Cur.ok THEN savedOk \cup {Cur.t} ELSE savedOk)
-         /\ UNCHANGED <<case, phase, hdr, i, lastK, treeSeen, viol, kfUsed>>
+         /\ UNCHANGED <<case, phase, hdr, i, lastK, treeSeen, seen, viol, kfUsed>>
 
 Tree == /\ Ev("tree") /\ phase = "running" /\ i = Len(W)
         /\ Cur.pre_ok
@@ -71,32 +92,32 @@ Tree == /\ Ev("tree") /\ phase = "running" /\ i = Len(W)
               /\ f.len = hdr.tr[f.t].size /\ f.hash = hdr.tr[f.t].hash
               /\ AllArrived(W, f.t, Lens(f.t), Len(W))
         /\ treeSeen' = TRUE
-        /\ UNCHANGED <<case, phase, hdr, i, lastK, savedOk, viol, kfUsed>>
+        /\ UNCHANGED <<case, phase, hdr, i, lastK, savedOk, seen, viol, kfUsed>>
 
 Owed(t) == Announced(W, t, Len(W)) /\ AllArrived(W, t, Lens(t), Len(W))
 Delivered(t) == Has(lastK[t], "complete") /\ (hdr.cfg.allow_save => t \in savedOk)
 
 End == /\ Ev("end") /\ phase = "running" /\ i = Len(W) /\ treeSeen
        /\ \A t \in 1..NTr : Owed(t) => Delivered(t)
-       /\ phase' = "ended" /\ UNCHANGED <<case, hdr, i, lastK, savedOk, treeSeen, viol, kfUsed>>
+       /\ phase' = "ended" /\ UNCHANGED <<case, hdr, i, lastK, savedOk, treeSeen, seen, viol, kfUsed>>
 
 KF_End == /\ KF_C17_DuplicateIncomplete
           /\ Ev("end") /\ phase = "running" /\ i = Len(W) /\ treeSeen
           /\ \E t \in 1..NTr : Owed(t) /\ ~Delivered(t)
           /\ \A t \in 1..NTr : (Owed(t) /\ ~Delivered(t)) => DupBeforeEnd(W, t, Lens(t), Len(W))
           /\ kfUsed' = kfUsed \cup {[case |-> case, kf |-> "KF_C17_DuplicateIncomplete"]}
-          /\ phase' = "ended" /\ UNCHANGED <<case, hdr, i, lastK, savedOk, treeSeen, viol>>
+          /\ phase' = "ended" /\ UNCHANGED <<case, hdr, i, lastK, savedOk, treeSeen, seen, viol>>
 
 Matches == ENABLED Msg \/ ENABLED Saved \/ ENABLED Tree \/ ENABLED End \/ ENABLED KF_End
 Reject == /\ l <= Len(Rec) /\ Cur.ev # "reset" /\ phase = "running" /\ ~Matches
           /\ PrintT(<<"CASE_REJECTED", case, l, ToJson(Cur)>>)
           /\ l' = l + 1 /\ phase' = "rejected" /\ viol' = viol \cup {case}
-          /\ UNCHANGED <<case, hdr, i, lastK, savedOk, treeSeen, kfUsed>>
+          /\ UNCHANGED <<case, hdr, i, lastK, savedOk, treeSeen, seen, kfUsed>>
 SkipRest == /\ l <= Len(Rec) /\ Cur.ev # "reset" /\ phase \in {"rejected", "ended", "idle"}
             /\ l' = l + 1
             /\ (IF phase = "ended" THEN viol' = viol \cup {case} /\ phase' = "rejected"
                                    ELSE UNCHANGED <<viol, phase>>)
-            /\ UNCHANGED <<case, hdr, i, lastK, savedOk, treeSeen, kfUsed>>
+            /\ UNCHANGED <<case, hdr, i, lastK, savedOk, treeSeen, seen, kfUsed>>
 
 Next == Reset \/ Msg \/ Saved \/ Tree \/ End \/ KF_End \/ Reject \/ SkipRest
 Spec == Init /\ [][Next]_vars
